@@ -89,6 +89,23 @@ func checkDTFacts(c DTCase) (*Violation, dtFacts) {
 		}
 		return violf("%s: the time-zone rules give class %s%s and %v, Query returned %s", at, wantClass, why, mRenderSeq(mr.Items), got), f
 	}
+	// a non-suppressible zone error must survive WithSilent, every other rejection must vanish
+	if p2, perr, _ := ParseSafe(c.Path); perr == nil {
+		o := Opts{TZ: c.TZ, Zone: c.Zone}
+		sopts := []exec.Option{exec.WithVars(exec.Vars{"a": c.A, "b": c.B}), exec.WithSilent()}
+		if c.TZ {
+			sopts = append(sopts, exec.WithTZ())
+		}
+		si := RunQuery(o.Ctx(), p2, nil, sopts...)
+		if si.Panic == "" && !isD9(si.Err) {
+			if wantClass == EHard && si.Class != EHard {
+				return violf("%s: the non-suppressible error (%s) must survive WithSilent, got %s", at, mr.Err.msg, si), f
+			}
+			if wantClass != EHard && si.Class != EOK {
+				return violf("%s with WithSilent returned %s", at, si), f
+			}
+		}
+	}
 	if wantClass == EOK {
 		if w, g := mRenderSeq(mr.Items), RenderSeq(got.Items, true); !sameSeq(w, g) {
 			return violf("%s: the time-zone rules give %v, Query returned %v", at, w, g), f
@@ -128,6 +145,22 @@ func dtGrid() []DTCase {
 				}
 				// cast chains through the canonical text
 				out = append(out, DTCase{Path: "$a.datetime().string()." + m + "()", A: s, TZ: z.tz, Zone: z.zone})
+			}
+		}
+	}
+	// exact half-way fractions at every precision (round half up)
+	for prec := 0; prec <= 6; prec++ {
+		for j := 0; j < 100; j++ {
+			frac := fmt.Sprintf("%0*d5", prec, j%pow10(prec))
+			if prec == 0 {
+				frac = "5"
+			}
+			out = append(out,
+				DTCase{Path: fmt.Sprintf("$a.time(%d)", prec), A: "12:00:00." + frac},
+				DTCase{Path: fmt.Sprintf("$a.timestamp(%d).string()", prec), A: "2015-08-01T10:20:30." + frac},
+				DTCase{Path: fmt.Sprintf("$a.timestamp_tz(%d)", prec), A: "2015-08-01T10:20:30." + frac + "Z", TZ: true})
+			if prec == 0 {
+				break
 			}
 		}
 	}
